@@ -107,6 +107,8 @@ pub const C05_PAYLOADS: &[Payload] = &[
     e(Det::AssignUpdateArrayValue, "other-array", Near, "arr[1] = a0[1] + x"),
     e(Det::AssignUpdateArrayValue, "other-index", Near, "arr[1] = arr[2] + x"),
     e(Det::AssignUpdateArrayValue, "index-differs-in-exponent", Near, "arr[1e1] = arr[1] + x"),
+    e(Det::AssignUpdateArrayValue, "index-digits-and-exponent-concatenate-alike", Near, "arr[1e12] = arr[11e2] + x"),
+    e(Det::AssignUpdateArrayValue, "index-digits-and-exponent-concatenate-alike-2", Near, "arr[12e3] = arr[1e23] - x"),
     e(Det::AssignUpdateArrayValue, "index-same-value-other-text", Near, "arr[10] = arr[1e1] + x"),
     e(Det::AssignUpdateArrayValue, "scalar", Near, "x = x + 1"),
     e(Det::AssignUpdateArrayValue, "power", Near, "arr[1] = arr[1] ** x"),
@@ -991,6 +993,9 @@ pub fn corpus_c07(tier: &str, rng: &mut Rng) -> Vec<Case> {
         ("pinned-with-caret-in-block-comment", Near, "pragma solidity 0.8.10 /* was ^0.8.0 */;\n"),
         ("pinned-with-caret-in-leading-comment", Near, "pragma solidity /* ^ */ 0.8.10;\n"),
         ("pinned-with-caret-in-line-comment", Near, "pragma solidity 0.8.10 // not ^0.8.0\n;\n"),
+        ("pinned-with-caret-in-multi-line-comment", Near, "pragma solidity 0.8.10 /* was\n ^0.8.0\n */;\n"),
+        ("pinned-with-caret-after-slashes-in-block-comment", Near, "pragma solidity 0.8.10 /* http://x // ^0.8.0 */;\n"),
+        ("caret-after-block-comment-with-slashes", Canon, "pragma solidity /* http://x // y */ ^0.8.0;\n"),
         ("pinned", Near, "pragma solidity 0.8.10;\n"),
         ("pinned-old", Near, "pragma solidity 0.4.24;\n"),
         ("pinned-1-0-0", Near, "pragma solidity 1.0.0;\n"),
@@ -1497,7 +1502,7 @@ pub fn dec_add_one(s: &str) -> String {
 // C09: version matrix
 // ---------------------------------------------------------------------------------------------
 pub const OPERATORS: &[(&str, &str)] = &[("none", ""), ("caret", "^"), ("tilde", "~"), ("equals", "="), ("greater-equal", ">="), ("greater", ">")];
-pub const PLACEMENTS: &[&str] = &["none", "before", "after", "both", "after-definition", "at-end", "comment-after-version", "comment-before-version", "line-comment-after-version", "experimental-version-like-before"];
+pub const PLACEMENTS: &[&str] = &["none", "before", "after", "both", "after-definition", "at-end", "comment-after-version", "comment-before-version", "line-comment-after-version", "experimental-version-like-before", "block-comment-with-slashes", "multi-line-block-comment"];
 
 pub fn c09_bodies() -> Vec<(&'static str, String)> {
     let s31 = "a".repeat(31);
@@ -1552,6 +1557,8 @@ pub fn c09_file(version: Option<(u32, u32, u32)>, op: &str, placement: &str, bod
             "comment-after-version" => src.push_str(&format!("pragma solidity {}{}.{}.{} /* was {} */;\n", op, a, b, c, other)),
             "comment-before-version" => src.push_str(&format!("pragma solidity /* not {} */ {}{}.{}.{};\n", other, op, a, b, c)),
             "line-comment-after-version" => src.push_str(&format!("pragma solidity {}{}.{}.{} // {}\n;\n", op, a, b, c, other)),
+            "block-comment-with-slashes" => src.push_str(&format!("pragma solidity /* see https://x.y/{} */ {}{}.{}.{} /* was {} // bumped */;\n", other, op, a, b, c, other)),
+            "multi-line-block-comment" => src.push_str(&format!("pragma solidity {}{}.{}.{} /* was\n {}\n */;\n", op, a, b, c, other)),
             _ => src.push_str(&format!("pragma solidity {}{}.{}.{};\n", op, a, b, c)),
         }
     }
@@ -1641,6 +1648,12 @@ pub fn same_name_variable_files() -> Vec<(String, String)> {
     out.push(("state-variable+local-elsewhere".into(), format!("{}{}{}", h, reader("A", "x"), local("B", "x"))));
     out.push(("parameter-elsewhere+state-variable".into(), format!("{}{}{}", h, param("B", "x"), reader("A", "x"))));
     out.push(("three-contracts".into(), format!("{}{}{}{}", h, reader("A", "x"), reader("C", "y"), writer("B", "x", "@ = 1"))));
+    // same-named MEMORY PARAMETERS in different items: one function writes its parameter, the other only reads its own
+    let mw = |c: &str, f: &str| format!("contract {} {{\n    function {}(uint[] memory a) public {{ a[0] = 1; }}\n}}\n", c, f);
+    let mr = |c: &str, f: &str| format!("contract {} {{\n    function {}(uint[] memory a) public returns (uint) {{ return a[0]; }}\n}}\n", c, f);
+    out.push(("memory-parameter-written+memory-parameter-read".into(), format!("{}{}{}", h, mw("A", "f"), mr("B", "g"))));
+    out.push(("memory-parameter-read+memory-parameter-written".into(), format!("{}{}{}", h, mr("B", "g"), mw("A", "f"))));
+    out.push(("memory-parameter-written+free-function-reading".into(), format!("{}{}function fr(uint[] memory a) pure returns (uint) {{ return a[0]; }}\n", h, mw("A", "f"))));
     // control: different names -- no interference possible
     out.push(("control-different-names".into(), format!("{}{}{}", h, reader("A", "x"), writer("B", "z", "@ = 1"))));
     out
